@@ -72,6 +72,7 @@ fn judge<'a, T: DiffableStr + ?Sized + 'a>(d: &'a TextDiff<'a, 'a, 'a, T>, old: 
     }
     obs.nontrivial = old != new && eqs > 0 && chg > 0;
     obs.class_if(d.old_slices().len() > 100 || d.new_slices().len() > 100, "> 100 tokens");
+    obs.class_if(d.old_slices().len() + d.new_slices().len() > 66_000, "> 66 000 tokens");
     Ok(())
 }
 
@@ -103,7 +104,7 @@ pub fn check_case(c: &TextCase, obs: &mut Obs) -> Verdict {
 }
 
 fn strat(tier: Tier) -> BoxedStrategy<TextCase> {
-    prop_oneof![8 => text_case_mix(tier.pick(130, 200)), 2 => line_case(tier.pick(30, 150), true), 1 => big_line_case(tier.pick(130, 300))].boxed()
+    prop_oneof![16 => text_case_mix(tier.pick(130, 200)), 4 => line_case(tier.pick(30, 150), true), 2 => big_line_case(tier.pick(130, 300)), 1 => distinct_line_case(tier.pick(300, 600))].boxed()
 }
 
 const CORE: &[&[u8]] = &[b"a", b"b", b" ", b"\n", b"\r", "\u{e9}".as_bytes(), b"\x80"];
@@ -144,6 +145,16 @@ impl Prop for C04 {
                     exhaustive: false,
                     gen: enum_small,
                 },
+            },
+            Stage {
+                name: "huge",
+                kind: StageKind::Enumerate { scope: "2 fixed line texts with 70 000 distinct lines (token ids beyond 16 bits)".into(), exhaustive: true, gen: |_t, f| {
+                    for c in huge_line_cases() {
+                        if !f(c) {
+                            return;
+                        }
+                    }
+                } },
             },
             Stage { name: "random", kind: StageKind::Random { strategy: strat, cases: tier.pick(500_000, 3_000_000) } },
         ]
